@@ -1,18 +1,19 @@
-(* ModelShape.v - the shapes of the shell code that the orchestrator models implement, in the vocabulary of
-   Orch/ShapeDefs.v.  Properties_C04.v / Properties_C11.v compare them with gen/Gen_Orch.v (what
-   harness/t_orch.py read in util.sh on this run). *)
+(* ModelShape.v - the statement lists (vocabulary of Orch/ShapeDefs.v) whose meaning (Orch/ShapeSem.v) Orch/OrchTie.v
+   PROVES to be OrchDefs.main_step / job_step / trap_exit and RunLock.invoke_end.  Properties_C04.v /
+   Properties_C11.v instantiate those theorems with gen/Gen_Orch.v - what harness/t_orch.py read in util.sh on
+   this run; the equations between the two sides are checked by computation there, so that a changed util.sh
+   fails exactly the tie theorems. *)
 From Robsd Require Export Orch.ShapeDefs.
 Local Open Scope Z_scope.
 
-(* OrchDefs.main_step: skip test first; queue full iff length jobs = ncpu, then keep the jobs still running
-   (filter is_running); parallel steps forked and remembered; the barrier before every synchronous step incl.
-   end, clearing the remembered jobs; end recorded and the loop left; synchronous steps in the foreground *)
-Definition modelled_loop : loop_shape :=
-  mkloop true true QWKeepStillRunning true BarrierBeforeEverySyncStep true true true.
+Definition modelled_body : loop_body :=
+  mkbody [LSkipTest]
+         [LQueueFull QWKeepStillRunning; LForkJob]
+         [LBarrier; LEnd; LSyncJob]
+         [LReboot; LLockAlive].
 
-(* OrchDefs.job_step: record with exit -1, the command's status, completion record + hook; the WaitSync mode
-   of main_step turns a non-zero status into OFailed *)
-Definition modelled_job : job_shape := mkjob (-1) true true true.
+Definition modelled_job : list jstmt :=
+  [JLogId; JT0; JWriteInflight (-1) (-1); JExec; JT1; JDuration; JDelta; JWriteDone; JHook; JReturnIfNonzero].
 
-(* OrchDefs.trap_exit and RunLock.invoke_end *)
-Definition modelled_exit : exit_shape := mkexit true true true true true.
+Definition modelled_exit : list xstmt :=
+  [XKillStat; XReturnIfNoBuilddir; XReportMail; XEndHook; XLockRelease; XRemoveIfEmpty; XReturnErr].
